@@ -10,6 +10,7 @@ code (see design.d/C14.md).
 -/
 import XlModel.Lemmas.Decode
 import XlModel.Generated.FactsC14
+import XlModel.Props.C20
 
 namespace XlModel.Props.C14
 open XlModel XlModel.Decode
@@ -36,16 +37,15 @@ theorem guards_checkRow :
 
 /-- shared-string and style index guards -/
 theorem guards_getValueFrom :
-    "xlsxSI >= 0 && len(d.SI) > xlsxSI" ∈ Facts.C14.conds_getValueFrom ∧
+    "found = xlsxSI >= 0 && len(d.SI) > xlsxSI; found" ∈ Facts.C14.conds_getValueFrom ∧
     Facts.C14.index_getValueFrom = ["d.SI[xlsxSI]"] ∧
-    "c.S >= len(styleSheet.CellXfs.Xf) || c.S < 0" ∈ Facts.C14.conds_formattedValue ∧
-    "styleSheet.CellXfs == nil" ∈ Facts.C14.conds_formattedValue ∧
+    "styleSheet.CellXfs == nil || c.S >= len(styleSheet.CellXfs.Xf) || c.S < 0" ∈ Facts.C14.conds_formattedValue ∧
     Facts.C14.index_formattedValue = ["styleSheet.CellXfs.Xf[c.S]", "styleSheet.CellXfs.Xf[c.S]"] ∧
     "index < 0 || len(f.sharedStringItem) <= index" ∈ Facts.C14.conds_getFromStringItem := by decide
 
 /-- the streaming row iterator bounds row numbers by TotalRows -/
 theorem guards_rows :
-    "rowNum > TotalRows" ∈ Facts.C14.conds_rowsNext ∧ "rowNum > TotalRows" ∈ Facts.C14.conds_rowsColumns := by decide
+    "rowNum > TotalRows" ∈ Facts.C14.conds_rowsNext ∧ "rowNum, rowIterator.err = attrValToInt(\"r\", xmlElement.Attr); rowNum > TotalRows" ∈ Facts.C14.conds_rowsColumns := by decide
 
 /-- clause "malformed encryption containers": length guards and the exact slice sites of the
 standard-encryption path -/
@@ -54,12 +54,14 @@ theorem guards_crypt :
     Facts.C14.index_encryptionMechanism = ["buffer[:2]", "buffer[2:4]"] ∧
     "len(encryptionInfoBuf) < 12 || len(encryptedPackageBuf) < 8" ∈ Facts.C14.conds_standardDecrypt ∧
     "encryptionHeaderSize < 32 || encryptionHeaderSize > len(encryptionInfoBuf)-12" ∈ Facts.C14.conds_standardDecrypt ∧
-    "len(block) < verifierSize" ∈ Facts.C14.conds_standardDecrypt ∧
+    "verifierSize := map[string]int{\"RC4\": 60, \"AES\": 72}[algorithm]; len(block) < verifierSize" ∈ Facts.C14.conds_standardDecrypt ∧
+    "size := binary.LittleEndian.Uint64(encryptedPackageBuf[:8]); size < uint64(len(decrypted))" ∈ Facts.C14.conds_standardDecrypt ∧
     "len(x)%aes.BlockSize != 0" ∈ Facts.C14.conds_standardDecrypt ∧
     Facts.C14.index_standardDecrypt = ["encryptionInfoBuf[8:12]", "encryptionInfoBuf[12 : 12+encryptionHeaderSize]",
       "block[:4]", "block[4:8]", "block[8:12]", "block[12:16]", "block[16:20]", "block[20:24]", "block[24:28]",
       "block[28:32]", "block[32:]", "encryptionInfoBuf[12+encryptionHeaderSize:]", "algIDMap[header.AlgID]",
-      "map[string]int{\"RC4\": 60, \"AES\": 72}[algorithm]", "encryptedPackageBuf[8:]", "decrypted[bs:be]", "x[bs:be]"] ∧
+      "map[string]int{\"RC4\": 60, \"AES\": 72}[algorithm]", "encryptedPackageBuf[8:]", "decrypted[bs:be]", "x[bs:be]",
+      "encryptedPackageBuf[:8]", "decrypted[:size]"] ∧
     Facts.C14.index_standardEncryptionVerifier = ["blob[:4]", "blob[4:20]", "blob[20:36]", "blob[36:40]", "blob[40:60]", "blob[40:72]"] ∧
     "cbRequiredKeyLength > len(x3)" ∈ Facts.C14.conds_standardConvertPasswdToKey ∧
     "x3[:cbRequiredKeyLength]" ∈ Facts.C14.index_standardConvertPasswdToKey := by decide
@@ -148,10 +150,13 @@ theorem no_panic_standardDecrypt (i : SDIn) : (decryptDispatch i).isPanic = fals
       · exact Decode.no_panic_standardDecrypt i
       · intro n _; rfl
 
-/-- clause "allocate memory out of proportion": the buffer `standardDecrypt` allocates
-(`make([]byte, len(x))`) is the package stream minus its 8-byte length prefix, a whole number of blocks -/
+/-- clause "allocate memory out of proportion": what `standardDecrypt` returns is never longer than
+the package stream minus its 8-byte length prefix (the buffer it allocates), and is cut to the
+declared plaintext size when that is smaller -/
 theorem standardDecrypt_alloc (i : SDIn) (n : Nat) (h : standardDecrypt i = .ok n) :
-    n + 8 = i.pkgLen ∧ n % 16 = 0 := standardDecrypt_len i n h
+    n + 8 ≤ i.pkgLen := by
+  have := standardDecrypt_len i n h
+  omega
 
 /-! ## worksheet rows -/
 
@@ -165,7 +170,7 @@ def RefsInGrid (rows : List Row) : Prop :=
 (any `r`: negative, zero, duplicate, huge; any number of cells; references absent, unparsable or
 anywhere in the grid), `checkSheet` ends in `ok` or `err`; `err` exactly covers the rejected row
 numbers, and an `ok` grid has exactly `rowSlots` slots.
-(`_partial`: needs column ≥ 1 for parsed references — see `finding_negative_column`.) -/
+(stated over abstract reference values; `no_panic_load` discharges the hypothesis for every text.) -/
 theorem no_panic_checkSheet_partial (rows : List Row) (hw : RefsInGrid rows) :
     (checkSheet rows).isPanic = false ∧
     (∀ g, checkSheet rows = .ok g → (g.length : Int) = rowSlots rows) := by
@@ -210,21 +215,109 @@ theorem alloc_bounded (rows : List Row) (hw : RefsInGrid rows) (g : Grid) (h : c
 /-- `checkRow` never indexes out of range on a grid whose parsed references have column ≥ 1:
 the rebuilt row is sized by the greatest column of the row (cells in any order, duplicated,
 without references, beyond MaxColumns) -/
-theorem no_panic_checkRow_partial (g : Grid) (hw : ∀ r ∈ g, ∀ c ∈ r.cells, ColOK c) :
+theorem no_panic_checkRow (g : Grid) (hw : ∀ r ∈ g, ∀ c ∈ r.cells, ColOK c) :
     (checkRow g).isPanic = false := checkRows_no_panic g 1 hw
 
-/-- the missing guard: a parsed reference with a column below 1 — which `CellNameToCoordinates`
-returns for column names of 14 or more letters (C20 `finding_colname_overflow`) — makes the
+/-- what `workSheetReader` does after decoding (`checkSheet` then `checkRow`) never panics on rows
+whose parsed references lie in the grid: `checkSheet` only moves cells and adds empty ones, so the
+column ≥ 1 invariant `checkRow` needs survives it -/
+theorem no_panic_load_refs (rows : List Row) (hw : RefsInGrid rows) : (load rows).isPanic = false := by
+  unfold load
+  apply bind_no_panic
+  · exact (no_panic_checkSheet_partial rows hw).1
+  · intro g hg
+    apply no_panic_checkRow
+    exact checkSheet_P (P := ColOK) (by intro col rw h; simp [emptyCell, R.coords] at h) rows g hg
+      (fun r hr c hc col rw hco => (hw r hr c hc col rw hco).1)
+
+/-- every reference text the decoder can hand over lies in the grid once it parses
+(C20 `cell_decode_encode`: `CellNameToCoordinates` accepts only A1 references inside the grid,
+since the column limit is checked after every letter) -/
+theorem decoded_refs_in_grid (rows : List (Int × List (List Char × Bool))) (n : Nat) :
+    RefsInGrid (rowsOf rows n) := by
+  induction rows generalizing n with
+  | nil => intro r hr; cases hr
+  | cons x rest ih =>
+    obtain ⟨rr, cs⟩ := x
+    intro r hr
+    simp only [rowsOf, List.mem_cons] at hr
+    rcases hr with rfl | hr
+    · simp only
+      intro c hc col rw hco
+      have key : ∀ (cs : List (List Char × Bool)) (k : Nat), ∀ c ∈ cellsOf cs k, ∀ col rw,
+          c.r.coords = some (col, rw) →
+          1 ≤ col ∧ col ≤ (Facts.MaxColumns : Int) ∧ 1 ≤ rw ∧ rw ≤ (Facts.TotalRows : Int) := by
+        intro cs
+        induction cs with
+        | nil => intro k c hc; cases hc
+        | cons y ys ihc =>
+          obtain ⟨s, hv⟩ := y
+          intro k c hc col rw hco
+          simp only [cellsOf, List.mem_cons] at hc
+          rcases hc with rfl | hc
+          · simp only [refOf] at hco
+            split at hco
+            · simp [R.coords] at hco
+            · split at hco
+              · rename_i p hp
+                simp only [R.coords, Option.some.injEq] at hco
+                subst hco
+                have := XlModel.Props.C20.cell_decode_encode s col rw hp
+                exact ⟨this.1, this.2.1, this.2.2.1, this.2.2.2.1⟩
+              · simp [R.coords] at hco
+          · exact ihc _ c hc col rw hco
+      exact key cs n c hc col rw hco
+    · exact ih _ r hr
+
+/-- **clause "out-of-range indices, absurd dimensions … never panic", full strength**: for EVERY
+list of `<row>` elements — any `r` attribute (negative, zero, duplicate, huge), any number of
+`<c>` elements, any `r` text whatsoever on each (absent, garbage, out of order, overlong column
+names, rows beyond the limit) — loading the worksheet ends in a grid or an error -/
+theorem no_panic_load (rows : List (Int × List (List Char × Bool))) :
+    (load (rowsOf rows 0)).isPanic = false :=
+  no_panic_load_refs _ (decoded_refs_in_grid rows 0)
+
+/-- … and the number of row slots is bounded by the limits, for every decoded sheet -/
+theorem alloc_bounded_decoded (rows : List (Int × List (List Char × Bool))) (g : Grid)
+    (h : checkSheet (rowsOf rows 0) = .ok g) : g.length ≤ Facts.TotalRows + rows.length := by
+  have := alloc_bounded _ (decoded_refs_in_grid rows 0) g h
+  have hl : ∀ (rs : List (Int × List (List Char × Bool))) (n : Nat), (rowsOf rs n).length = rs.length := by
+    intro rs; induction rs with
+    | nil => intro n; rfl
+    | cons x xs ih => intro n; obtain ⟨a, b⟩ := x; simp [rowsOf, ih]
+  rw [hl] at this; exact this
+
+/-- the hypothesis of `no_panic_load_refs` is not redundant: a parsed column below 1 (which
+`CellNameToCoordinates` returned for 14+-letter column names before the C20 repair) would make the
 `r="0"` placement index `C[col-1]` out of range -/
-theorem finding_negative_column :
+theorem refs_in_grid_needed :
     (load [{ r := 0, cells := [{ r := .orig (some (-5, 1)), hv := true, id := some 0 }] }]).isPanic = true := by
   decide
 
-/-- … and the same in `checkRow` when the row has to be rebuilt -/
-theorem finding_negative_column_checkRow :
-    (checkRow [{ r := 1, cells := [{ r := .orig (some (-5, 1)), hv := true, id := some 0 },
-                                   { r := .orig (some (4, 1)), hv := true, id := some 1 }] }]).isPanic = true := by
-  decide
+/-! ## unzip limits -/
+
+/-- the size check of `ReadZipReader` is the first thing done with an entry, before the branches that
+spool large worksheet / shared-string parts to temporary files -/
+theorem guards_zip :
+    Facts.C14.conds_ReadZipReader.head? = some "unzipSize > f.options.UnzipSizeLimit" ∧
+    Facts.C14.stmts_ReadZipReader_loop.take 3 =
+      ["fileSize := v.FileInfo().Size()", "unzipSize += fileSize", "if unzipSize > f.options.UnzipSizeLimit"] := by decide
+
+/-- clause "allocate memory out of proportion to the configured unzip limits": a package is accepted
+exactly when the declared sizes of ALL its entries (spooled or not) sum to at most `UnzipSizeLimit` -/
+theorem unzip_limit_exact (sizes : List Nat) (limit xmlLimit : Nat) (hx : xmlLimit ≤ limit) :
+    openLimits sizes limit xmlLimit = .ok () ↔ sizes.sum ≤ limit := by
+  unfold openLimits
+  rw [if_neg (by omega)]
+  have := zipAccount_iff sizes 0 limit (Nat.zero_le _)
+  simp only [Nat.zero_add] at this
+  constructor
+  · intro h
+    split at h
+    · rename_i hz; exact this.mp hz
+    · cases h
+  · intro h
+    rw [if_pos (this.mpr h)]
 
 /-! ## non-vacuity -/
 
